@@ -342,11 +342,35 @@ func (g *caseGen) bigGop(class int) {
 		}
 		return g.size(false)
 	}
+	if class == 3 {
+		// a high bit rate stream WITH audio: ten pictures of 450-900 KB (4.5-9 MB in the
+		// segment), AAC frames at their exact cadence between them. The GOP lasts less
+		// than twice the fragment length, so no audio frame may cut it (after seeded
+		// change C10-R6B: a byte limit consulted when audio arrives)
+		for k := int64(0); k < 10; k++ {
+			pts := t0 + k*(d-300)/9
+			for g.ta < pts {
+				g.c.Ops = append(g.c.Ops, op{K: "a", Size: g.size(true), PTS: g.ta})
+				g.ta += g.cad
+			}
+			hdr := byte(0x41)
+			if k == 0 {
+				hdr = 0x65
+			}
+			g.c.Ops = append(g.c.Ops, op{K: "v", Hdr: hdr, Size: rapid.IntRange(450000, 900000).Draw(g.rt, "size"), PTS: pts, DTS: pts})
+		}
+		g.now = t0 + d
+		g.stats = append(g.stats, "big:gop>4MiB-with-audio")
+		return
+	}
 	g.c.Ops = append(g.c.Ops,
 		op{K: "v", Hdr: 0x65, Size: sz(), PTS: t0, DTS: t0},
 		op{K: "v", Hdr: 0x41, Size: sz(), PTS: t0 + d/2, DTS: t0 + d/2},
 		op{K: "v", Hdr: 0x01, Size: sz(), PTS: t0 + d - 300, DTS: t0 + d - 300})
 	g.now = t0 + d
+	if g.ta < g.now {
+		g.ta = g.now + g.cad - (g.now % g.cad) // audio, if any follows, resumes on its cadence
+	}
 	g.stats = append(g.stats, []string{"big:gop-small", "big:gop>512KiB", "big:gop>1MiB"}[class])
 }
 
@@ -368,6 +392,11 @@ func genBigCase(rt *rapid.T) (*caseSpec, []string) {
 	big := 1
 	if rapid.IntRange(0, 2).Draw(rt, "over1MiB") == 0 {
 		big = 2
+	}
+	if rapid.IntRange(0, 2).Draw(rt, "over4MiBWithAudio") == 0 {
+		big = 3
+		g.now = 10 * g.cad * 40 // on the audio cadence, well past the start-up of the time-stamp estimator
+		g.ta = g.now
 	}
 	g.bigGop(big)
 	g.bigGop(0)
